@@ -3481,6 +3481,8 @@ fn validate_extension_declarations(
     extensions: Vec<ExpirationExtension2>,
 ) -> Result<ExtendExpirationsInner, ActorError> {
     let mut claim_space_by_sector = BTreeMap::<SectorNumber, (u64, u64)>::new();
+    // Sectors named in some declaration's `sectors_with_claims`.
+    let mut sectors_declared_with_claims = BTreeSet::<SectorNumber>::new();
 
     for decl in &extensions {
         let policy = rt.policy();
@@ -3494,9 +3496,30 @@ fn validate_extension_declarations(
         }
 
         for sc in &decl.sectors_with_claims {
+            // A sector's claims are validated against the new expiration of the declaration that lists them,
+            // so the sector may be declared with claims only once.
+            if !sectors_declared_with_claims.insert(sc.sector_number) {
+                return Err(actor_error!(
+                    illegal_argument,
+                    "sector {} declared with claims more than once",
+                    sc.sector_number
+                ));
+            }
             let mut drop_claims = sc.drop_claims.clone();
             let mut all_claim_ids = sc.maintain_claims.clone();
             all_claim_ids.append(&mut drop_claims);
+            // Each claim may be named only once: its size is counted toward the sector's declared claim space.
+            let mut seen_claim_ids = BTreeSet::<ext::verifreg::ClaimID>::new();
+            for claim_id in &all_claim_ids {
+                if !seen_claim_ids.insert(*claim_id) {
+                    return Err(actor_error!(
+                        illegal_argument,
+                        "duplicate claim {} declared for sector {}",
+                        claim_id,
+                        sc.sector_number
+                    ));
+                }
+            }
             let claims = get_claims(rt, &all_claim_ids)
                 .with_context(|| format!("failed to get claims for sector {}", sc.sector_number))?;
             let first_drop = sc.maintain_claims.len();
@@ -3547,6 +3570,19 @@ fn validate_extension_declarations(
                         *maintain += maintain_delta;
                     })
                     .or_insert((claim.size.0, maintain_delta));
+            }
+        }
+    }
+    // A sector declared with claims must not also be extended as a plain sector by any declaration,
+    // which would reuse its claim space for a different new expiration.
+    for decl in &extensions {
+        for sector_number in decl.sectors.iter() {
+            if sectors_declared_with_claims.contains(&sector_number) {
+                return Err(actor_error!(
+                    illegal_argument,
+                    "sector {} declared both with and without claims",
+                    sector_number
+                ));
             }
         }
     }
